@@ -244,22 +244,20 @@ theorem snapshot_in_sync_id {wc : WC} {disk : Disk} {ign : Path → Bool}
           rw [hr] at hdec; simp at hdec
     · simp [hc]
 
-/-- **snapshot_after_checkout_id** (partial: conditional on `skipped_files = 0` and on the disk
-after the checkout being well formed).  From an in-sync working copy, check out `new` without
-skipping anything, snapshot right away: the tree is `new` again (and the file states are unchanged).
-Gaps: (1) as for `checkout_disk_eq_tree_partial`; (2) `WFDisk` of the updated disk is a hypothesis —
-`update` only creates directories above what it writes and removes only empty ones, but the
-preservation lemma is not proved here. -/
+/-- **snapshot_after_checkout_id** (partial: conditional on `skipped_files = 0`).  From an in-sync,
+well-formed working copy, check out `new` without skipping anything, snapshot right away: the tree
+is `new` again.  (`update_wf`: the update keeps the disk well formed.)
+Gap: as for `checkout_disk_eq_tree_partial`. -/
 theorem snapshot_after_checkout_id_partial {wc : WC} {disk : Disk} {new : Tree} {ign : Path → Bool}
-    (hin : InSync disk wc.tree wc.sparse)
+    (hwf : WFDisk disk) (hin : InSync disk wc.tree wc.sparse)
     (hst : ∀ q, q ∈ wc.states ↔ sparseMatch wc.sparse q = true ∧ get wc.tree q ≠ none)
     (hpf : PrefixFree new)
-    (hsk : (checkOut wc disk new).2.stats.skipped = 0)
-    (hwf : WFDisk (checkOut wc disk new).2.disk) :
+    (hsk : (checkOut wc disk new).2.stats.skipped = 0) :
     ∀ p, get (snapshot (checkOut wc disk new).1 (checkOut wc disk new).2.disk ign).tree p = get new p := by
   have h1 := checkout_disk_eq_tree_partial hin hsk
   have h2 := checkout_states_partial hst hsk
-  exact (snapshot_in_sync_id (wc := (checkOut wc disk new).1) hwf h1 hpf h2).1
+  have h3 : WFDisk (checkOut wc disk new).2.disk := update_wf _ _ _ _ hwf
+  exact (snapshot_in_sync_id (wc := (checkOut wc disk new).1) h3 h1 hpf h2).1
 
 /-- **switch_eq_fresh** (partial: files and symlinks, conditional on nothing being skipped in either
 run).  Switching from tree `a` (in sync) to `b` leaves the same files and symlinks on disk as
@@ -283,6 +281,83 @@ theorem switch_eq_fresh_partial {wc : WC} {disk : Disk} {b : Tree}
   intro p x hx
   rw [h1 p x hx, h2 p x hx]
 
+
+/-! ### full statements when the trees do not exchange files and directories -/
+
+/-- every directory on disk holds a file or symlink somewhere below it (no empty directories
+lying around: what a checkout leaves behind) -/
+def Tight (disk : Disk) : Prop :=
+  ∀ d, get disk d = some .dir → ∃ q x, get disk q = some x ∧ x ≠ .dir ∧ d <+: q ∧ d ≠ q
+
+/-- **nothing is skipped** from an in-sync, tight working copy when old and new tree agree on what
+is a file and what is a directory (`NoTypeChange`) — for *any* processing order of the diff. -/
+theorem checkout_noskip_of_no_type_change {wc : WC} {disk : Disk} {new : Tree}
+    (hin : InSync disk wc.tree wc.sparse) (htight : Tight disk)
+    (hnt : NoTypeChange wc.tree new (sparseMatch wc.sparse)) :
+    (checkOut wc disk new).2.stats.skipped = 0 := by
+  have hsh : Shaped wc.tree new (sparseMatch wc.sparse) disk := by
+    constructor
+    · intro q x hq hx
+      obtain ⟨hs, v, hv, _⟩ := (hin q x hx).mp hq
+      exact ⟨hs, Or.inl (by rw [hv]; simp)⟩
+    · intro d hd
+      obtain ⟨q, x, hq, hx, hpre, hne⟩ := htight d hd
+      obtain ⟨hs, v, hv, _⟩ := (hin q x hx).mp hq
+      exact ⟨q, ⟨hs, Or.inl (by rw [hv]; simp)⟩, hpre, hne⟩
+  have htp : ∀ e ∈ diffFs wc.tree new (sparseMatch wc.sparse), TreePath wc.tree new (sparseMatch wc.sparse) e.path := by
+    intro e he
+    obtain ⟨hm, hne, _, _⟩ := C25.diff_paths he
+    refine ⟨hm, ?_⟩
+    cases h1 : get wc.tree e.path with
+    | some v => exact Or.inl (by simp)
+    | none =>
+      right
+      intro h2
+      rw [h1, h2] at hne
+      exact hne rfl
+  have hb : ∀ e ∈ diffFs wc.tree new (sparseMatch wc.sparse), ∀ x,
+      get disk e.path = some x → x ≠ .dir → e.before ≠ none := by
+    intro e he x hx hxd
+    obtain ⟨_, _, hbe, _⟩ := C25.diff_paths he
+    obtain ⟨_, v, hv, _⟩ := (hin e.path x hxd).mp hx
+    rw [hbe, hv]; simp
+  exact steps_noskip_of_shaped hnt (diffFs wc.tree new (sparseMatch wc.sparse))
+    { disk := disk, states := wc.states, stats := {}, log := [] } (nodup_diffFs_paths _ _ _) hsh htp hb
+
+/-- **checkout_disk_eq_tree** (no file↔directory replacement): after the checkout the files and
+symlinks on disk are exactly the new tree's paths within the patterns, materialised. -/
+theorem checkout_disk_eq_tree {wc : WC} {disk : Disk} {new : Tree}
+    (hin : InSync disk wc.tree wc.sparse) (htight : Tight disk)
+    (hnt : NoTypeChange wc.tree new (sparseMatch wc.sparse)) :
+    InSync (checkOut wc disk new).2.disk new wc.sparse :=
+  checkout_disk_eq_tree_partial hin (checkout_noskip_of_no_type_change hin htight hnt)
+
+/-- **snapshot_after_checkout_id** (no file↔directory replacement): check out, snapshot right
+away, get the checked-out tree back. -/
+theorem snapshot_after_checkout_id {wc : WC} {disk : Disk} {new : Tree} {ign : Path → Bool}
+    (hwf : WFDisk disk) (hin : InSync disk wc.tree wc.sparse) (htight : Tight disk)
+    (hst : ∀ q, q ∈ wc.states ↔ sparseMatch wc.sparse q = true ∧ get wc.tree q ≠ none)
+    (hpf : PrefixFree new) (hnt : NoTypeChange wc.tree new (sparseMatch wc.sparse)) :
+    ∀ p, get (snapshot (checkOut wc disk new).1 (checkOut wc disk new).2.disk ign).tree p = get new p :=
+  snapshot_after_checkout_id_partial hwf hin hst hpf (checkout_noskip_of_no_type_change hin htight hnt)
+
+/-- **switch_eq_fresh** (no file↔directory replacement; files and symlinks) -/
+theorem switch_eq_fresh {wc : WC} {disk : Disk} {b : Tree}
+    (hin : InSync disk wc.tree wc.sparse) (htight : Tight disk)
+    (hnt : NoTypeChange wc.tree b (sparseMatch wc.sparse))
+    (hnt' : NoTypeChange [] b (sparseMatch wc.sparse)) :
+    ∀ p x, x ≠ .dir →
+      (get (checkOut wc disk b).2.disk p = some x ↔
+       get (checkOut { tree := [], states := [], sparse := wc.sparse } [] b).2.disk p = some x) := by
+  have h0 : InSync [] ([] : Tree) wc.sparse := by
+    intro p x _
+    constructor
+    · intro h; simp [WorkingCopy.get] at h
+    · rintro ⟨_, v, hv, _⟩; simp [WorkingCopy.get] at hv
+  have ht0 : Tight [] := by intro d hd; simp [WorkingCopy.get] at hd
+  exact switch_eq_fresh_partial hin (checkout_noskip_of_no_type_change hin htight hnt)
+    (checkout_noskip_of_no_type_change (wc := { tree := [], states := [], sparse := wc.sparse }) h0 ht0 hnt')
+
 /-! ### non-vacuity -/
 
 def exWC : WC := { tree := [(["d", "x"], .file "78" false), (["f"], .file "66" false)],
@@ -290,6 +365,9 @@ def exWC : WC := { tree := [(["d", "x"], .file "78" false), (["f"], .file "66" f
 def exDisk : Disk := [(["d"], .dir), (["d", "x"], .file "78" false), (["f"], .file "66" false)]
 /-- directory `d` replaced by a symlink, `f` by a directory holding a conflict marker file -/
 def exNew : Tree := [(["d"], .symlink "74"), (["f", "c"], .conflict "k" "6d61726b657273" false)]
+
+/-- a second target without file↔directory replacement, for the unconditional theorems -/
+def exNew2 : Tree := [(["d", "x"], .file "79" true), (["g"], .symlink "66")]
 
 example : (checkOut exWC exDisk exNew).2.stats.skipped = 0 := by decide
 example : WFDisk (checkOut exWC exDisk exNew).2.disk := wfDisk_of_check (by decide)
@@ -301,5 +379,131 @@ example :
     get (snapshot r.1 r.2.disk (fun _ => true)).tree ["f", "c"] = some (.conflict "k" "6d61726b657273" false) ∧
     get (snapshot r.1 r.2.disk (fun _ => true)).tree ["d"] = some (.symlink "74") ∧
     get (snapshot r.1 r.2.disk (fun _ => true)).tree ["f"] = none := by decide
+
+
+
+/-! ### decidable forms of the hypotheses (for the concrete instances) -/
+
+def inSyncB (disk : Disk) (tree : Tree) (sparse : List Path) : Bool :=
+  (disk.all fun e => e.2 == .dir ||
+    (sparseMatch sparse e.1 && match WorkingCopy.get tree e.1 with
+      | some v => e.2 == materialize v && WorkingCopy.get disk e.1 == some e.2 | none => false)) &&
+  (tree.all fun e => !(sparseMatch sparse e.1) ||
+    match WorkingCopy.get tree e.1 with
+    | some v => WorkingCopy.get disk e.1 == some (materialize v) | none => true) &&
+  (disk.all fun e => WorkingCopy.get disk e.1 == some e.2)
+
+theorem inSync_of_check {disk : Disk} {tree : Tree} {sparse : List Path} (h : inSyncB disk tree sparse = true) :
+    InSync disk tree sparse := by
+  simp only [inSyncB, Bool.and_eq_true, List.all_eq_true] at h
+  obtain ⟨⟨h1, h2⟩, _⟩ := h
+  intro p x hx
+  constructor
+  · intro hp
+    have := h1 (p, x) (get_some_mem hp)
+    simp only [Bool.or_eq_true, beq_iff_eq, Bool.and_eq_true] at this
+    rcases this with h | ⟨hs, hm⟩
+    · exact absurd h hx
+    · refine ⟨hs, ?_⟩
+      cases hv : WorkingCopy.get tree p with
+      | none => simp [hv] at hm
+      | some v => simp [hv] at hm; exact ⟨v, rfl, hm.1⟩
+  · rintro ⟨hs, v, hv, hxv⟩
+    have := h2 (p, v) (get_some_mem hv)
+    simp only [hs, Bool.not_true, Bool.false_or, hv, beq_iff_eq] at this
+    rw [this, hxv]
+
+def tightB (disk : Disk) : Bool :=
+  disk.all fun e => e.2 != .dir ||
+    disk.any fun f => f.2 != .dir && WorkingCopy.get disk f.1 == some f.2 && e.1.isPrefixOf f.1 && f.1 != e.1
+
+theorem tight_of_check {disk : Disk} (h : tightB disk = true) : Tight disk := by
+  simp only [tightB, List.all_eq_true] at h
+  intro d hd
+  have := h (d, .dir) (get_some_mem hd)
+  simp only [bne_self_eq_false, Bool.false_or, List.any_eq_true, Bool.and_eq_true, bne_iff_ne, ne_eq,
+    beq_iff_eq] at this
+  obtain ⟨f, _, ⟨⟨hx, hg⟩, hpre⟩, hne⟩ := this
+  exact ⟨f.1, f.2, hg, hx, isPrefixOf_iff.mp hpre, fun e => hne e.symm⟩
+
+def prefixFreeB (tree : Tree) : Bool :=
+  (WorkingCopy.get tree []).isNone &&
+  tree.all fun e => tree.all fun f => !(e.1.isPrefixOf f.1) || e.1 == f.1
+
+theorem prefixFree_of_check {tree : Tree} (h : prefixFreeB tree = true) : PrefixFree tree := by
+  simp only [prefixFreeB, Bool.and_eq_true, List.all_eq_true] at h
+  refine ⟨by simpa using h.1, ?_⟩
+  intro p q v w hp hq hpre
+  have := h.2 (p, v) (get_some_mem hp) (q, w) (get_some_mem hq)
+  simpa [isPrefixOf_iff.mpr hpre] using this
+
+def treePathB (old new : Tree) (m : Path → Bool) (p : Path) : Bool :=
+  m p && ((WorkingCopy.get old p).isSome || (WorkingCopy.get new p).isSome)
+
+def noTypeChangeB (old new : Tree) (m : Path → Bool) : Bool :=
+  let keys := old.map (·.1) ++ new.map (·.1)
+  keys.all fun p => keys.all fun q => !(treePathB old new m p && treePathB old new m q && p.isPrefixOf q) || p == q
+
+theorem treePath_key {old new : Tree} {m : Path → Bool} {p : Path} (h : TreePath old new m p) :
+    p ∈ old.map (·.1) ++ new.map (·.1) ∧ treePathB old new m p = true := by
+  obtain ⟨hm, ho⟩ := h
+  constructor
+  · rcases ho with ho | ho
+    · cases hv : WorkingCopy.get old p with
+      | none => exact absurd hv ho
+      | some v => exact List.mem_append_left _ (List.mem_map.mpr ⟨(p, v), get_some_mem hv, rfl⟩)
+    · cases hv : WorkingCopy.get new p with
+      | none => exact absurd hv ho
+      | some v => exact List.mem_append_right _ (List.mem_map.mpr ⟨(p, v), get_some_mem hv, rfl⟩)
+  · simp only [treePathB, hm, Bool.true_and, Bool.or_eq_true]
+    rcases ho with ho | ho
+    · left; cases hv : WorkingCopy.get old p with
+      | none => exact absurd hv ho
+      | some v => rfl
+    · right; cases hv : WorkingCopy.get new p with
+      | none => exact absurd hv ho
+      | some v => rfl
+
+theorem noTypeChange_of_check {old new : Tree} {m : Path → Bool} (h : noTypeChangeB old new m = true) :
+    NoTypeChange old new m := by
+  simp only [noTypeChangeB, List.all_eq_true] at h
+  intro p q hp hq hpre
+  obtain ⟨kp, tp⟩ := treePath_key hp
+  obtain ⟨kq, tq⟩ := treePath_key hq
+  have := h p kp q kq
+  simpa [tp, tq, isPrefixOf_iff.mpr hpre] using this
+
+def statesOkB (wc : WC) : Bool :=
+  (wc.states.all fun q => sparseMatch wc.sparse q && (WorkingCopy.get wc.tree q).isSome) &&
+  (wc.tree.all fun e => !(sparseMatch wc.sparse e.1) || decide (e.1 ∈ wc.states))
+
+theorem statesOk_of_check {wc : WC} (h : statesOkB wc = true) :
+    ∀ q, q ∈ wc.states ↔ sparseMatch wc.sparse q = true ∧ WorkingCopy.get wc.tree q ≠ none := by
+  simp only [statesOkB, Bool.and_eq_true, List.all_eq_true] at h
+  intro q
+  constructor
+  · intro hq
+    have := h.1 q hq
+    refine ⟨this.1, ?_⟩
+    intro hn; rw [hn] at this; simp at this
+  · rintro ⟨hs, hn⟩
+    cases hv : WorkingCopy.get wc.tree q with
+    | none => exact absurd hv hn
+    | some v =>
+      have := h.2 (q, v) (get_some_mem hv)
+      simpa [hs] using this
+
+/-! instances -/
+example : InSync exDisk exWC.tree exWC.sparse := inSync_of_check (by decide)
+example : Tight exDisk := tight_of_check (by decide)
+example : WFDisk exDisk := wfDisk_of_check (by decide)
+example : PrefixFree exNew ∧ PrefixFree exNew2 := ⟨prefixFree_of_check (by decide), prefixFree_of_check (by decide)⟩
+example : NoTypeChange exWC.tree exNew2 (sparseMatch exWC.sparse) := noTypeChange_of_check (by decide)
+example : NoTypeChange [] exNew2 (sparseMatch exWC.sparse) := noTypeChange_of_check (by decide)
+example : ∀ q, q ∈ exWC.states ↔ sparseMatch exWC.sparse q = true ∧ WorkingCopy.get exWC.tree q ≠ none :=
+  statesOk_of_check (by decide)
+/-- `exNew` does exchange files and directories (`d`, `f`), `exNew2` does not -/
+example : noTypeChangeB exWC.tree exNew (sparseMatch exWC.sparse) = false := by decide
+
 
 end JjModel.C24
